@@ -54,6 +54,12 @@ type worker struct {
 	watchSecs int
 	inCall    bool
 	outBytes  int64 // bytes of terminal output seen by the emulator (atomic)
+
+	// scripted call state (shared by the gate and the emulator's DSR handler)
+	scMu     sync.Mutex
+	script   *ScriptPlan
+	scPos    int
+	scEvents []Event
 }
 
 func openPTY() (master, slave int, err error) {
@@ -156,6 +162,10 @@ func (w *worker) send(tr *Trace) {
 func (w *worker) hookTerm() {
 	w.term.OnDSR = func(row, col int) {
 		reply := []byte(fmt.Sprintf("\x1b[%d;%dR", row, col))
+		if w.script != nil {
+			w.scriptDSR(reply)
+			return
+		}
 		if len(w.ta) > 0 {
 			if w.taAfter {
 				reply = append(reply, w.ta...)
@@ -194,6 +204,59 @@ func (w *worker) termLoop() {
 		if err != nil && err != unix.EINTR && err != unix.EAGAIN {
 			return
 		}
+	}
+}
+
+// scriptDefault returns the number of bytes the default plan delivers at a key read:
+// the rest of the current logical key.
+func (w *worker) scriptDefault() int {
+	sum := 0
+	for _, l := range w.script.KeyLens {
+		sum += l
+		if sum > w.scPos {
+			return sum - w.scPos
+		}
+	}
+	return len(w.script.Bytes) - w.scPos
+}
+
+// scriptDSR answers a cursor-position query of a scripted call: the report, plus the
+// type-ahead the plan puts at this event.
+func (w *worker) scriptDSR(reply []byte) {
+	w.scMu.Lock()
+	idx := len(w.scEvents)
+	rem := len(w.script.Bytes) - w.scPos
+	ev := Event{Kind: "cpr", Remaining: rem, Default: 0, Pos: w.scPos}
+	var ta []byte
+	if d, ok := w.script.Decisions[idx]; ok && d.N > 0 && d.Mode != "" && rem > 0 {
+		n := d.N
+		if n > rem {
+			n = rem
+		}
+		ta = append(ta, w.script.Bytes[w.scPos:w.scPos+n]...)
+		w.scPos += n
+		ev.N, ev.Mode = n, d.Mode
+	}
+	w.scEvents = append(w.scEvents, ev)
+	w.scMu.Unlock()
+	switch {
+	case len(ta) == 0:
+		unix.Write(w.master, reply)
+	case ev.Mode == "after":
+		unix.Write(w.master, append(append([]byte{}, reply...), ta...))
+	case ev.Mode == "own":
+		unix.Write(w.master, ta)
+		// wait until the library has consumed the type-ahead in a read of its own
+		for i := 0; i < 40000; i++ {
+			if q, err := unix.IoctlGetInt(w.slave, unix.TIOCINQ); err == nil && q == 0 {
+				break
+			}
+			time.Sleep(50 * time.Microsecond)
+		}
+		time.Sleep(200 * time.Microsecond)
+		unix.Write(w.master, reply)
+	default: // "before"
+		unix.Write(w.master, append(ta, reply...))
 	}
 }
 
@@ -626,6 +689,14 @@ func (w *worker) runJob(job *Job) (tr *Trace) {
 		tr.InitHash = w.stateHash(sh, true)
 	}
 
+	w.mu.Lock()
+	w.scMu.Lock()
+	w.script, w.scPos, w.scEvents = job.Script, 0, nil
+	w.scMu.Unlock()
+	w.mu.Unlock()
+	if job.Script != nil && len(job.Calls) == 0 {
+		job.Calls = [][]Answer{nil}
+	}
 	for ci, answers := range job.Calls {
 		_ = ci
 		run.answers, run.idx, run.waits, run.nwaits, run.log, run.eofReads, run.pending = answers, 0, nil, 0, nil, 0, nil
@@ -635,6 +706,11 @@ func (w *worker) runJob(job *Job) (tr *Trace) {
 		w.mu.Unlock()
 		c := w.runCall(run)
 		c.Waits, c.NWaits, c.Log = run.waits, run.nwaits, run.log
+		if job.Script != nil {
+			w.scMu.Lock()
+			c.Events = append([]Event{}, w.scEvents...)
+			w.scMu.Unlock()
+		}
 		if job.Want.Raw {
 			w.syncTerm()
 			w.mu.Lock()
@@ -863,7 +939,34 @@ func (g *gate) Read(p []byte) (int, error) {
 	}
 
 	var ans Answer
-	if r.idx >= len(r.answers) {
+	if w.script != nil {
+		w.scMu.Lock()
+		idx := len(w.scEvents)
+		rem := len(w.script.Bytes) - w.scPos
+		if rem == 0 {
+			w.scMu.Unlock()
+			ans = Answer{End: true}
+		} else {
+			def := w.scriptDefault()
+			n := def
+			if d, ok := w.script.Decisions[idx]; ok && d.N > 0 {
+				n = d.N
+			}
+			if n > rem {
+				n = rem
+			}
+			if n > len(p) {
+				n = len(p)
+			}
+			ans = Answer{Bytes: append([]byte{}, w.script.Bytes[w.scPos:w.scPos+n]...)}
+			w.scEvents = append(w.scEvents, Event{Kind: "key", Remaining: rem, Default: def, N: n, Pos: w.scPos})
+			w.scPos += n
+			w.scMu.Unlock()
+		}
+		// the answer list is not used in script mode
+		r.answers = append(r.answers[:0], ans)
+		r.idx = 0
+	} else if r.idx >= len(r.answers) {
 		ans = Answer{End: true}
 	} else {
 		ans = r.answers[r.idx]
